@@ -1,7 +1,7 @@
 From Tramp Require Import Model.Base Model.Fee Model.Classify Model.Node Model.Provider Model.ProviderSys Model.Sys.
 From Tramp Require Import Proofs.SysBasics Proofs.SysShape Proofs.SysTheorems Proofs.SysReach Proofs.SysCalls Proofs.SysNode Proofs.SysSafety Proofs.SysRecover Props.C09.
 Check C09_crash_image_is_a_start_image : forall c n t0 h0 a0 evs,
-  node_ok n -> hist_wf c (sys_start n t0 h0 a0) evs ->
+  node_ok n -> hist_wf false c (sys_start n t0 h0 a0) evs ->
   node_ok (nd (fst (step c (after c n t0 h0 a0 evs) EvCrash))).
 Check C09_never_wedged : forall c n t0 h0 a0 h (p : list N),
   funded c h -> mpp_ms c <> 0 -> node_ok n -> (forall i, nth_error (parts n) i <> Some PPend) ->
